@@ -1216,4 +1216,6 @@ class Explorer:
             stack.extend(out["pending"])
             if on_path:
                 on_path(out)
+            if out.get("status") == "raised" and "PathTimeout" in (out.get("error") or ""):
+                break       # a path that ran into the watchdog: leave the rest of this job unexplored (reported)
         return stack, n
